@@ -85,6 +85,7 @@ func (ctx *Context) Parse(value string) error {
 	ctx.Error = nil
 	ctx.NumOpCount = 0
 	ctx.detailCache = ""
+	ctx.DetailSpans = nil // 上一次运行留下的区间指向旧文本，解析或运行失败后再取计算过程会越界
 
 	// 开始解析，编译字节码
 	if ctx.Config.ParseExprLimit != 0 {
